@@ -14,6 +14,8 @@ import (
 
 func init() {
 	register(&Property{ID: "C05", Run: runC05, Mutants: []Mutant{
+		{Name: "memory maximum printed only when it exceeds the initial size", File: "internal/wat/printer/printer_memory.go", Old: "if p.m.Memory.MaxPages > 0 {", New: "if p.m.Memory.MaxPages > p.m.Memory.Pages {", Expect: "optional-limit-elision"},
+		{Name: "imported memory maximum dropped when it equals 1", File: "internal/wat/printer/printer_import.go", Old: "if importSpec.Memory.MaxPages != 0 {", New: "if importSpec.Memory.MaxPages > 1 {", Expect: "optional-limit-elision"},
 		{Name: "memory emptiness ignores the address type", File: "internal/wat/printer/printer_empty.go", Old: "if zero := new(ast.Memory); *zero == *p.m.Memory {", New: "if zero := (ast.Memory{AddrType: p.m.Memory.AddrType}); zero == *p.m.Memory {", Expect: "empty-predicate-whole-value"},
 		{Name: "inline func exports merged before inline global exports", File: "internal/wat/parser/module.go", Old: "\tfor _, g := range p.module.Globals {\n\t\tif g.ExportName != \"\" {\n\t\t\tp.module.Exports = append(p.module.Exports, &ast.ExportSpec{\n\t\t\t\tName:      g.ExportName,\n\t\t\t\tKind:      token.GLOBAL,\n\t\t\t\tGlobalIdx: g.Name,\n\t\t\t})\n\t\t}\n\t}\n", New: "", Expect: "inline-export-merge-order"},
 		{Name: "printer drops the memory.init data index", File: "internal/wat/printer/printer_funcs.go", Old: "fmt.Fprintln(w, tok, ins.(ast.Ins_MemoryInit).DataIdx)", New: "fmt.Fprintln(w, tok)", Expect: "ins-field-coverage :: memory.init"},
@@ -23,7 +25,11 @@ func init() {
 		{Name: "printer forgets table max size", File: "internal/wat/printer/printer_table.go", Old: "\tif p.m.Table.MaxSize > 0 {\n\t\tfmt.Fprint(p.w, \" \", p.m.Table.MaxSize)\n\t}\n", New: "", Expect: "module-field-coverage :: Table.MaxSize"},
 		{Name: "printer forgets mutability", File: "internal/wat/printer/printer_globals.go", Old: "if g.Mutable {\n\t\t\tfmt.Fprintf(p.w, \" (mut %v)\", g.Type)\n\t\t} else {\n\t\t\tfmt.Fprint(p.w, \" \", g.Type)\n\t\t}", New: "fmt.Fprint(p.w, \" \", g.Type)", Expect: "module-field-coverage :: Global.Mutable"},
 		{Name: "instruction arm removed", File: "internal/wat/printer/printer_funcs.go", Old: "\tcase token.INS_F64_COPYSIGN:\n\t\tfmt.Fprintln(w, tok)\n", New: "", Expect: "printer-exhaustive :: f64.copysign"},
-		{Name: "section printer not called", File: "internal/wat/printer/printer.go", Old: "\tif err := p.printElem(); err != nil {\n\t\treturn err\n\t}\n", New: "", Expect: "section-called"},
+		{Name: "function name printed without testing that there is one", File: "internal/wat/printer/printer_funcs.go", Old: "\t\tif fn.Name != \"\" {\n\t\t\tfmt.Fprintf(p.w, \" %s\", watPrinter_identOrIndex(fn.Name))\n\t\t}\n", New: "\t\tfmt.Fprintf(p.w, \" %s\", watPrinter_identOrIndex(fn.Name))\n", Expect: "optional-name-guarded :: watPrinter.printFuncs"},
+		{Name: "global name guarded by the wrong field", File: "internal/wat/printer/printer_globals.go", Old: "if g.Name != \"\" {", New: "if g.ExportName != \"\" {", Expect: "optional-name-guarded :: watPrinter.printGlobals"},
+		{Name: "data segment name glued to the keyword", File: "internal/wat/printer/printer_data.go", Old: "fmt.Fprint(p.w, \" \", watPrinter_identOrIndex(d.Name))", New: "fmt.Fprint(p.w, watPrinter_identOrIndex(d.Name))", Expect: "token-separation :: watPrinter.printData"},
+		{Name: "global type glued to the keyword", File: "internal/wat/printer/printer_globals.go", Old: "fmt.Fprint(p.w, \" \", g.Type)", New: "fmt.Fprint(p.w, g.Type)", Expect: "token-separation :: watPrinter.printGlobals"},
+		{Name: "section printer not called",File: "internal/wat/printer/printer.go", Old: "\tif err := p.printElem(); err != nil {\n\t\treturn err\n\t}\n", New: "", Expect: "section-called"},
 	}})
 }
 
@@ -76,7 +82,10 @@ func runC05(c *Ctx) {
 	}
 	info := pp.TypesInfo
 	c05EmptyPredicates(c, p, pp)
+	c05OptionalLimits(c, p, pp)
 	c05ExportMergeOrder(c, p, pr, pp)
+	c05OptionalNames(c, p, pr, pp)
+	c05TokenSeparation(c, p, pp)
 	ptypes := watParserTypes(pr)
 	c.Min(rEx, "parser token->type rows", len(ptypes), 170)
 	astFields := StructFields(as)
@@ -84,6 +93,9 @@ func runC05(c *Ctx) {
 
 	fd := p.MustFunc(rEx, pp, "watPrinter_printFuncs_body_ins")
 	if fd != nil {
+		// arms are read with the package's helpers expanded (inline.go): a header printed through a shared helper is
+		// the same text
+		fd = &ast.FuncDecl{Recv: fd.Recv, Name: fd.Name, Type: fd.Type, Body: InlinedBody(pp, fd)}
 		var sw *ast.SwitchStmt
 		ast.Inspect(fd.Body, func(n ast.Node) bool {
 			if s, ok := n.(*ast.SwitchStmt); ok && sw == nil {
